@@ -3,6 +3,7 @@ package sim
 import (
 	"fmt"
 	"os"
+	"runtime"
 	"runtime/debug"
 	"strings"
 	"sync/atomic"
@@ -64,10 +65,31 @@ func runOne(t *testing.T, spec *runSpec) (res *RunResult) {
 	stopGuard := make(chan struct{})
 	defer close(stopGuard)
 	go func() {
-		select {
-		case <-time.After(runWallLimit()):
-			abortRun.Store(true)
-		case <-stopGuard:
+		limit := time.After(runWallLimit())
+		tick := time.NewTicker(5 * time.Second)
+		defer tick.Stop()
+		last := progress.Load()
+		lastChange := time.Now()
+		for {
+			select {
+			case <-limit:
+				abortRun.Store(true)
+				limit = nil
+			case <-tick.C:
+				if p := progress.Load(); p != last {
+					last, lastChange = p, time.Now()
+				} else if time.Since(lastChange) > stuckLimit() {
+					// no step completed for a long time: dump every goroutine and
+					// give up on this worker (exit code 3: the orchestrator drops
+					// the run in progress and reports it)
+					buf := make([]byte, 8<<20)
+					n := runtime.Stack(buf, true)
+					os.WriteFile(fmt.Sprintf("%s/stuck-%d-%d.txt", stuckDir(), os.Getpid(), spec.Seed), buf[:n], 0o644)
+					os.Exit(3)
+				}
+			case <-stopGuard:
+				return
+			}
 		}
 	}()
 	prof := profiles[spec.Property]
@@ -464,4 +486,22 @@ func runWallLimit() time.Duration {
 		}
 	}
 	return 100 * time.Second
+}
+
+var progress atomic.Int64
+
+func stuckLimit() time.Duration {
+	if v := os.Getenv("SIM_STUCK"); v != "" {
+		if d, err := time.ParseDuration(v); err == nil {
+			return d
+		}
+	}
+	return 150 * time.Second
+}
+
+func stuckDir() string {
+	if d := os.Getenv("SIM_STUCK_DIR"); d != "" {
+		return d
+	}
+	return os.TempDir()
 }
